@@ -39,7 +39,7 @@ func init() {
 			"'tree unmodified' is decided by a structural reflection snapshot taken by the monitor before the call",
 			"the order of ResolvePackage calls follows map iteration, so fail-at-k hits a different package from run to run; every k is covered, not every (k, package) pair",
 		},
-		Required: map[string]int{"fault_kinds": 5},
+		Required: map[string]int{"fault_kinds": 6},
 	})
 }
 
@@ -227,6 +227,37 @@ func c17Decorate(c *fw.Ctx, id, name string, src []byte) {
 				c.Nontrivial(cid)
 			}
 		})
+	}
+	// (c2) the shared goast instance is kept: its package-name resolver fails once at call k and
+	// works afterwards; the retry uses a fresh decorator on the same *ast.File with the same goast
+	// (a resolver is neither decorator nor restorer: it is the "working resolver" of the retry)
+	{
+		fset0, af0 := parse()
+		probe := &failingPkgResolver{inner: guess.New()}
+		_, _ = decorator.NewDecoratorWithImports(fset0, "example.com/self", goast.WithResolver(probe)).DecorateFile(af0)
+		for k := 1; k <= probe.calls && k <= 12; k++ {
+			cid2 := fmt.Sprintf("%s/goast-kept-inner-fails@%d", id, k)
+			c.Case(cid2, func() {
+				c.Observe("fault_kinds", "goast-kept-across-retry")
+				fset, af := parse()
+				inner := &failingPkgResolver{inner: guess.New(), failAt: k}
+				shared := goast.WithResolver(inner)
+				_, err := decorator.NewDecoratorWithImports(fset, "example.com/self", shared).DecorateFile(af)
+				c17Verdict(c, cid2, "decorate", err, false, 0, string(src))
+				out2, err2 := decorator.NewDecoratorWithImports(fset, "example.com/self", shared).DecorateFile(af)
+				if err2 != nil {
+					c.Violate("retry-fails", "retry-fails:goast-kept", cid2+": "+err2.Error(), string(src))
+					return
+				}
+				if got, _ := printWithImports(out2); got != refOut {
+					c.Violate("retry-differs", "retry-differs:goast-kept", cid2+": retry with the same goast instance differs from the failure-free output", string(src))
+				}
+				if dd := refl.DeepEqualDst(out2, ref); dd != "" {
+					c.Violate("retry-differs", "retry-differs:goast-kept-tree", cid2+": "+dd, string(src))
+				}
+				c.Nontrivial(cid2)
+			})
+		}
 	}
 	// (c) failure inside goast's package-name resolver
 	cid := id + "/goast-inner-resolver-fails"
